@@ -133,25 +133,35 @@ def _tags_for_line(unit, lineno):
 def scan_trusted(unit):
     found = []
     lines = unit.lines
+    cur_impl = ''
     for i, gl in enumerate(lines):
         t = gl.text
         if t.lstrip().startswith('//'):
             continue
+        mo = re.match(r'^\s*impl\b(.*?)\{?\s*$', t)
+        if mo and not t.startswith('        '):
+            cur_impl = norm(mo.group(1))
+            cur_impl = re.sub(r'^<[^>]*>\s*', '', cur_impl)
+        elif t.startswith('}'):
+            cur_impl = ''
         for kind, pat in TRUST_PATTERNS:
             if pat.search(t):
-                # describe with the next fn/struct name
                 desc = t.strip()
                 if kind in ('external_body', 'external_type_specification', 'external'):
                     for k in range(i, min(i + 6, len(lines))):
                         mo = re.search(r'(fn|struct|enum)\s+([A-Za-z_][A-Za-z0-9_]*)', lines[k].text)
                         if mo:
                             desc = mo.group(0)
+                            if mo.group(1) == 'fn' and cur_impl:
+                                desc = 'fn %s::%s' % (cur_impl, mo.group(2))
                             break
                 elif kind == 'assume_specification':
-                    mo = re.search(r'\[(.*?)\]', t)
+                    mo = re.search(r'assume_specification.*?\[\s*(.*?)\s*\]\s*\(', t)
                     desc = mo.group(1).strip() if mo else desc
+                elif kind == 'uninterp':
+                    mo = re.search(r'fn\s+([A-Za-z0-9_]+)', t)
+                    desc = 'spec fn %s%s' % ((cur_impl + '::') if cur_impl else '', mo.group(1))
                 found.append('%s: %s' % (kind, norm(desc)[:120]))
-    # de-duplicate keeping order
     seen = set()
     out = []
     for f in found:
